@@ -321,7 +321,7 @@ def gen_chain_world(rng):
     return w if sites_ok(w) else gen_chain_world(rng)
 
 
-def gen_load_world(rng, placement=None, producer=None, order=None):
+def gen_load_world(rng, placement=None, producer=None, order=None, reuse=None):
     """directed stratum for C09: one producer of /prod, one reader that loads it.
     placement: where the load sits (root | helper | kept | datafn); producer: datafn | keep;
     order: before | after | earlier | never (relative to the reader, in program order)"""
@@ -350,6 +350,13 @@ def gen_load_world(rng, placement=None, producer=None, order=None):
         reader_item = {"k": "call", "f": "fr"}
     if rng.random() < 0.5:
         root_items.append({"k": "call", "f": "fn"})
+    # the producing function may already have appeared in the evaluation (called, or kept at another path)
+    reuse = reuse if reuse is not None else rng.choice(["none", "none", "called_before", "kept_before"])
+    if producer == "keep" and order in ("before", "after"):
+        if reuse == "called_before":
+            root_items.append({"k": "call", "f": "fp"})
+        elif reuse == "kept_before":
+            root_items.append({"k": "keep", "path": "/other", "f": "fp", "args": [], "kwargs": []})
     if order == "before":
         root_items += [prod_item, reader_item]
     elif order == "after":
@@ -361,7 +368,7 @@ def gen_load_world(rng, placement=None, producer=None, order=None):
     f0 = {"name": "f0", "params": [], "store_path": None, "tag": "f0#0", "reads": [], "items": root_items, "fails": None, "uses_ext": False}
     funs = [f0] + ([reader] if reader else []) + [fp, noise]
     w = {"vars": vars_, "funs": funs, "ext_version": 0, "extra": []}
-    meta = {"placement": placement, "producer": producer, "order": order}
+    meta = {"placement": placement, "producer": producer, "order": order, "reuse": reuse}
     return w, meta
 
 
